@@ -4,27 +4,37 @@
     fn nz_u32(s: &[u32], out: &mut [u32; 8]) -> usize { let mut k = 0; let mut i = 0; while i < s.len() { if s[i] != 0 { out[k] = s[i]; k += 1; } i += 1; } k }
     fn nz_u64(s: &[u64], out: &mut [u64; 8]) -> usize { let mut k = 0; let mut i = 0; while i < s.len() { if s[i] != 0 { out[k] = s[i]; k += 1; } i += 1; } k }
 
+    // The table LENGTH is concrete per case (0..=6) and the CONTENTS symbolic: with a symbolic length CBMC must model Vec growth / memmove with
+    // symbolic sizes (collect: no verdict in 500 s, retain: solver out of memory).
     // hll_codec_coupons vx_collect_nonzero: s.iter().filter(|&&c| c != 0).copied().collect() == nz(s)   (Box<[u32]>)
+    fn collect_nonzero_case<const N: usize>() {
+        let a: [u32; N] = kani::any();
+        let s: Box<[u32]> = a.to_vec().into_boxed_slice();
+        let r: Vec<u32> = s.iter().filter(|&&c| c != 0).copied().collect();
+        let mut e = [0u32; 8]; let k = nz_u32(&a, &mut e);
+        assert!(r.len() == k);
+        let i: usize = kani::any(); if i < k { assert!(r[i] == e[i]); }      // no assume here: the cases run in sequence
+    }
     #[kani::proof]
     #[kani::unwind(8)]
     fn shim_collect_nonzero() {
-        let a: [u32; 6] = kani::any(); let n: usize = kani::any(); kani::assume(n <= 6);
-        let s: Box<[u32]> = a[..n].to_vec().into_boxed_slice();
-        let r: Vec<u32> = s.iter().filter(|&&c| c != 0).copied().collect();
-        let mut e = [0u32; 8]; let k = nz_u32(&a[..n], &mut e);
-        assert!(r.len() == k);
-        let i: usize = kani::any(); kani::assume(i < k); assert!(r[i] == e[i]);
+        collect_nonzero_case::<0>(); collect_nonzero_case::<1>(); collect_nonzero_case::<2>(); collect_nonzero_case::<3>();
+        collect_nonzero_case::<4>(); collect_nonzero_case::<5>(); collect_nonzero_case::<6>();
     }
     // theta_table vx_retain_nonzero: v.retain(|&e| e != 0) == nonzero_seq(v)
+    fn retain_nonzero_case<const N: usize>() {
+        let a: [u64; N] = kani::any();
+        let mut v: Vec<u64> = a.to_vec();
+        v.retain(|&e| e != 0);
+        let mut e = [0u64; 8]; let k = nz_u64(&a, &mut e);
+        assert!(v.len() == k);
+        let i: usize = kani::any(); if i < k { assert!(v[i] == e[i]); }
+    }
     #[kani::proof]
     #[kani::unwind(8)]
     fn shim_retain_nonzero() {
-        let a: [u64; 6] = kani::any(); let n: usize = kani::any(); kani::assume(n <= 6);
-        let mut v: Vec<u64> = a[..n].to_vec();
-        v.retain(|&e| e != 0);
-        let mut e = [0u64; 8]; let k = nz_u64(&a[..n], &mut e);
-        assert!(v.len() == k);
-        let i: usize = kani::any(); kani::assume(i < k); assert!(v[i] == e[i]);
+        retain_nonzero_case::<0>(); retain_nonzero_case::<1>(); retain_nonzero_case::<2>(); retain_nonzero_case::<3>();
+        retain_nonzero_case::<4>(); retain_nonzero_case::<5>(); retain_nonzero_case::<6>();
     }
     // bloom_codec vx_sum_count_ones: s.iter().map(|w| w.count_ones() as u64).sum() == total_pc(s)
     #[kani::proof]
@@ -36,17 +46,18 @@
         let mut e: u64 = 0; let mut i = 0; while i < n { e += a[i].count_ones() as u64; i += 1; }
         assert!(r == e && r <= 64 * n as u64);
     }
-    // fi_map vx_none_vec: (0..n).map(|_| None).collect::<Vec<Option<T>>>() has length n, all None   (T = u64 and a non-Copy T)
-    #[kani::proof]
-    #[kani::unwind(8)]
-    fn shim_none_vec() {
-        let n: usize = kani::any(); kani::assume(n <= 6);
+    // fi_map vx_none_vec: (0..n).map(|_| None).collect::<Vec<Option<T>>>() has length n, all None   (T = u64 and a non-Copy T; n concrete per case)
+    fn none_vec_case<const N: usize>() {
+        let n: usize = N;
         let r: Vec<Option<u64>> = (0..n).map(|_| None).collect();
         assert!(r.len() == n);
-        let i: usize = kani::any(); kani::assume(i < n); assert!(r[i].is_none());
+        let i: usize = kani::any(); if i < n { assert!(r[i].is_none()); }
         let r2: Vec<Option<Box<u32>>> = (0..n).map(|_| None).collect();
-        assert!(r2.len() == n); assert!(r2[i].is_none());
+        assert!(r2.len() == n); if i < n { assert!(r2[i].is_none()); }
     }
+    #[kani::proof]
+    #[kani::unwind(10)]
+    fn shim_none_vec() { none_vec_case::<0>(); none_vec_case::<1>(); none_vec_case::<2>(); none_vec_case::<5>(); none_vec_case::<8>(); }
     // fi_codec vx_zip + VxZip::next: items.into_iter().zip(values) yields (items[i], values[i]) for i < min(len, len), then None
     #[kani::proof]
     #[kani::unwind(7)]
@@ -99,18 +110,27 @@
         let i: usize = kani::any(); kani::assume(i < hi - lo); assert!(r[i] == a[lo + i]);
     }
     // vx_alloc_vec (bloom_codec u64, cm_codec generic), vx_vec_u32, vx_zeroed_u8 (hll_codec4/8, theta_codec), vx_zeroed_u64, vx_vec_u8,
-    // vx_zeroed_item_bytes_raw: vec![x; n] has length n and every element == x.  (The C14 `requires` of these shims bound n at the call site;
-    // they are obligations of the callers, not facts about vec!.)
+    // vx_zeroed_item_bytes_raw: vec![x; n] has length n and every element == x (x symbolic: both the zeroed-allocation and the fill path).
+    // (The C14 `requires` of these shims bound n at the call site; they are obligations of the callers, not facts about vec!.)
+    fn vec_repeat_case<const N: usize>() {
+        let n: usize = N; let j: usize = kani::any(); let i = if j < n { j } else { 0 };      // no assume: the cases run in sequence
+        let x8: u8 = kani::any(); let v8 = vec![x8; n]; assert!(v8.len() == n && (n == 0 || v8[i] == x8));
+        let z8 = vec![0u8; n]; assert!(z8.len() == n && (n == 0 || z8[i] == 0));
+        let x32: u32 = kani::any(); let v32 = vec![x32; n]; assert!(v32.len() == n && (n == 0 || v32[i] == x32));
+        let x64: u64 = kani::any(); let v64 = vec![x64; n]; assert!(v64.len() == n && (n == 0 || v64[i] == x64));
+        let z64 = vec![0u64; n]; assert!(z64.len() == n && (n == 0 || z64[i] == 0));
+        let xi: i64 = kani::any(); let vi = vec![xi; n]; assert!(vi.len() == n && (n == 0 || vi[i] == xi));
+    }
     #[kani::proof]
-    #[kani::unwind(8)]
-    fn shim_vec_repeat() {
-        let n: usize = kani::any(); kani::assume(n <= 6); let i: usize = kani::any(); kani::assume(i < n);
-        let x8: u8 = kani::any(); let v8 = vec![x8; n]; assert!(v8.len() == n && v8[i] == x8);
+    #[kani::unwind(10)]
+    fn shim_vec_repeat() { vec_repeat_case::<0>(); vec_repeat_case::<1>(); vec_repeat_case::<3>(); vec_repeat_case::<8>(); }
+    // ... and for a symbolic length (u8 / u64 instances)
+    #[kani::proof]
+    #[kani::unwind(6)]
+    fn shim_vec_repeat_symbolic_len() {
+        let n: usize = kani::any(); kani::assume(n <= 4); let i: usize = kani::any(); kani::assume(i < n);
         let z8 = vec![0u8; n]; assert!(z8.len() == n && z8[i] == 0);
-        let x32: u32 = kani::any(); let v32 = vec![x32; n]; assert!(v32.len() == n && v32[i] == x32);
         let x64: u64 = kani::any(); let v64 = vec![x64; n]; assert!(v64.len() == n && v64[i] == x64);
-        let z64 = vec![0u64; n]; assert!(z64.len() == n && z64[i] == 0);
-        let xi: i64 = kani::any(); let vi = vec![xi; n]; assert!(vi.len() == n && vi[i] == xi);
     }
     // vx_alloc_raw_u64s, vx_alloc_raw_f64s, vx_with_capacity_u64 (and the Centroid instances in shims_td.rs): Vec::with_capacity(n) is empty
     #[kani::proof]
